@@ -12,6 +12,7 @@ from .. import common, solvex, cfgs, monitors as mon, oracles
 
 LEVEL = "exploration"
 MOD = "C11"
+SITE_EXEMPT = {"initialise_coordinate_directions#0": "projections branch; C11 covers bound-constrained and unconstrained problems only"}
 
 
 class JacobianMonitor(solvex.Monitor):
@@ -169,6 +170,7 @@ def run(report, tier, seed):
     salts = common.salts_for(tier, seed)
     cps = _configs(tier, salts)
     res = solvex.explore(report, MOD, cps, classify=classify)
+    solvex.site_floor(report, res["tags"], exempt=SITE_EXEMPT)
     tags = res["tags"]
     cov = report.coverage
     need = ["jacobian_checked", "checked_regression", "checked_scaled", "checked_after_soft_restart",
